@@ -10,7 +10,7 @@ hand-written, executable semantics.
 Faithfulness notes (each is exercised by the correspondence harness):
 * scalar read of a short read keeps the unread high bytes of the old value;
 * the stream's good/eof flags are NOT sticky in `ufile` mode (`UncompressedFile::read` resets
-  `m_rdstate` on every call) and sticky in `fstream` mode;
+  `m_rdstate` on every call that requests at least one byte) and sticky in `fstream` mode;
 * `rdBuf f n` into a buffer smaller than `n` bytes is undefined behaviour in C++: `halt := oob`;
 * `wrBuf f n` with `n` larger than the buffer reads outside the caller's container: `halt := oob`;
 * `resize` above `cap` bytes throws (`halt := badAlloc`);
@@ -124,6 +124,7 @@ def SIG : Nat := 0x4A424F4C   -- "LOBJ"
 /-- the stream's `read(s, n)`: returns the bytes obtained -/
 def St.sread (cfg : Cfg) (st : St) (n : Nat) : Bytes × St :=
   if cfg.sticky && !st.good then ([], { st with short := st.short || decide (0 < n) })
+  else if n = 0 ∧ !cfg.sticky then ([], st)     -- UncompressedFile::read(s, 0) leaves the state as it is
   else if st.pos + n ≤ st.inp.length then
     ((st.inp.drop st.pos).take n, { st with pos := st.pos + n, good := true, eof := false })
   else
